@@ -37,6 +37,44 @@ theorem leaves_collect (es : List (DpEvent K)) :
     | cons e rest ih => intro acc; simp only [List.foldl]; rw [ih, leaves_compose]; simp [leavesL, List.append_assoc]
   rw [gen]; simp [leaves]
 
+mutual
+/-- converse of `leaves_of_isNoOp`: an event with no recorded mechanism is one `is_no_op` answers yes for -/
+theorem isNoOp_of_leaves_nil : ∀ (e : DpEvent K), leaves z e = [] → isNoOp z e = true
+  | .noOp, _ => by simp [isNoOp]
+  | .gaussian m, h => by
+    simp only [leaves] at h
+    split at h
+    · rename_i hz; simpa [isNoOp] using hz
+    · simp at h
+  | .epsilonDelta a b, h => by
+    simp only [leaves] at h
+    split at h
+    · rename_i hz; simpa [isNoOp] using hz
+    · simp at h
+  | .composed es, h => by simp only [leaves] at h; simp only [isNoOp]; exact allNoOp_of_leavesL_nil es h
+theorem allNoOp_of_leavesL_nil : ∀ (es : List (DpEvent K)), leavesL z es = [] → allNoOp z es = true
+  | [], _ => by simp [allNoOp]
+  | e :: es, h => by
+    simp only [leavesL, List.append_eq_nil_iff] at h
+    simp only [allNoOp, Bool.and_eq_true]
+    exact ⟨isNoOp_of_leaves_nil e h.1, allNoOp_of_leavesL_nil es h.2⟩
+end
+
+/-- **`is_no_op` is exact**: an event is reported as spending nothing exactly when it records no mechanism with a non-zero
+parameter, at any nesting depth — a composed event hiding a real mechanism is never a no-op, and `compose` (which drops
+no-op operands) therefore drops nothing else. -/
+theorem isNoOp_iff_no_leaves (e : DpEvent K) : isNoOp z e = true ↔ leaves z e = [] :=
+  ⟨leaves_of_isNoOp z e, isNoOp_of_leaves_nil z e⟩
+
+/-- composition is associative on what it records (the grouping of `compose` calls along the tree does not matter) -/
+theorem leaves_compose_assoc (a b c : DpEvent K) :
+    leaves z (compose z (compose z a b) c) = leaves z (compose z a (compose z b c)) := by
+  simp only [leaves_compose, List.append_assoc]
+
+/-- a composition is a no-op only if both operands are -/
+theorem compose_noOp_iff (a b : DpEvent K) : isNoOp z (compose z a b) = true ↔ isNoOp z a = true ∧ isNoOp z b = true := by
+  simp only [isNoOp_iff_no_leaves, leaves_compose, List.append_eq_nil_iff]
+
 /-! ### budget arithmetic over ℝ -/
 
 open Budget
